@@ -63,6 +63,15 @@ fn out_json(o: &Out) -> J {
     }
 }
 
+fn want_mismatch_clone(o: &Out) -> Out {
+    match o {
+        Out::Mismatch(a, b) => Out::Mismatch(*a, *b),
+        Out::Ok(v) => Out::Ok(v.clone()),
+        Out::Other(e) => Out::Other(e.clone()),
+        Out::Panic(e) => Out::Panic(e.clone()),
+    }
+}
+
 struct TestFile {
     t: i32,
     shp: Vec<u8>,
@@ -392,6 +401,110 @@ pub fn run(ctx: &Ctx) -> Report {
                 }
             }
         }
+    }
+    // ---- mixed vectors and mixed files: several foreign types in one sequence; the result is
+    //      decided by the FIRST element that is not an S (error naming its type), whatever follows
+    let n_mixed = if cfg!(miri) { 2 } else { ctx.pick(40, 400) };
+    for &s_code in &TYPES {
+        for k in 0..n_mixed {
+            let case = format!("c06:mixed:S{}:k{}", s_code, k);
+            if !ctx.want(&case) {
+                continue;
+            }
+            let mut r = Rng::derive(ctx.seed, &[tag("c06-mixed"), s_code as u64, k as u64]);
+            let c = Cfg::plain(2, 3);
+            let len = r.usize_in(2, 7);
+            let lead = if k % 3 == 0 { 0 } else { r.usize_in(0, len - 2) };
+            let mut codes: Vec<i32> = vec![];
+            for i in 0..len {
+                codes.push(if i < lead || r.usize_in(0, 2) == 0 { s_code } else { ALL_CODES[r.usize_in(0, ALL_CODES.len() - 1)] });
+            }
+            if k % 2 == 0 {
+                // at least two different foreign types, the later one differing from the first
+                let others: Vec<i32> = ALL_CODES.iter().copied().filter(|&x| x != s_code).collect();
+                let a = others[r.usize_in(0, others.len() - 1)];
+                let b = *others.iter().filter(|&&x| x != a).nth(r.usize_in(0, others.len() - 2)).unwrap();
+                codes[lead] = a;
+                let last = len - 1;
+                codes[last] = b;
+            }
+            let shapes: Vec<Shape> = codes.iter().map(|&t| if t == 0 { Shape::NullShape } else { gen::shape(t, &mut r, &c) }).collect();
+            let foreign: Vec<i32> = codes.iter().copied().filter(|&t| t != s_code).collect();
+            let want = match foreign.first() {
+                Some(&t) => Out::Mismatch(s_code, t),
+                None => Out::Ok(shapes.iter().map(|x| x.d()).collect()),
+            };
+            let distinct_foreign = {
+                let mut f = foreign.clone();
+                f.sort();
+                f.dedup();
+                f.len()
+            };
+            if distinct_foreign >= 2 {
+                rep.count("mixed_sequences_with_two_or_more_foreign_types", 1);
+            }
+            // the file holding these records (no writer produces it: records concatenated by hand)
+            let mut shp = vec![0u8; 100];
+            shp[0..4].copy_from_slice(&9994i32.to_be_bytes());
+            shp[28..32].copy_from_slice(&1000i32.to_le_bytes());
+            shp[32..36].copy_from_slice(&codes[0].to_le_bytes());
+            for (i, sh) in shapes.iter().enumerate() {
+                let body: Vec<u8> = if codes[i] == 0 {
+                    0i32.to_le_bytes().to_vec()
+                } else {
+                    let (one, _) = write_all_mem(std::slice::from_ref(sh), false).expect("harness: writing one shape failed");
+                    one[108..].to_vec()
+                };
+                shp.extend_from_slice(&((i + 1) as i32).to_be_bytes());
+                shp.extend_from_slice(&((body.len() / 2) as i32).to_be_bytes());
+                shp.extend_from_slice(&body);
+            }
+            let w = (shp.len() / 2) as i32;
+            shp[24..28].copy_from_slice(&w.to_be_bytes());
+            let mk = || ShapeReader::new(Cursor::new(shp.clone()));
+            let routes: Vec<(&str, Out)> = for_type!(s_code, S => vec![
+                ("convert_shapes_to_vec_of(vector)", classify(panicmon::catch(|| convert_shapes_to_vec_of::<S>(shapes.iter().map(crate::shapes::clone_shape).collect())))),
+                ("convert_shapes_to_vec_of(read())", classify(panicmon::catch(|| mk().and_then(|r| r.read()).and_then(convert_shapes_to_vec_of::<S>)))),
+                ("read_as", classify(panicmon::catch(|| mk().and_then(|r| r.read_as::<S>())))),
+                ("iter_shapes_as", classify(panicmon::catch(|| mk().and_then(|mut r| r.iter_shapes_as::<S>().collect::<Result<Vec<S>, Error>>())))),
+            ]);
+            // successful file routes are compared with the generic read of the same file (what a
+            // file read does to a shape is C01's business), element by element
+            let want_file = match (&want, panicmon::catch(|| mk().and_then(|r| r.read()))) {
+                (Out::Ok(_), Ok(Ok(v))) if v.len() == shapes.len() && v.iter().all(|x| variant_code(x) == s_code) => Out::Ok(v.iter().map(|x| x.d()).collect()),
+                (Out::Ok(_), _) => Out::Other("generic read of an all-S file failed or returned another count/type".into()),
+                _ => want_mismatch_clone(&want),
+            };
+            for (route, got) in routes {
+                let want = if route == "convert_shapes_to_vec_of(vector)" { &want } else { &want_file };
+                rep.eval();
+                rep.class("mixed-sequence");
+                rep.nontrivial(&format!("mixed:S{}:{:?}:{}", s_code, codes, route));
+                if got != *want {
+                    let field = match (&got, want) {
+                        (Out::Mismatch(..), Out::Mismatch(..)) => "error-fields",
+                        (Out::Ok(_), Out::Ok(_)) => "value",
+                        _ => "result",
+                    };
+                    rep.violation(
+                        &format!("mixed/{}/{}/{}", type_name(s_code), route.split('(').next().unwrap(), field),
+                        &case,
+                        J::obj(vec![
+                            ("requested_S", J::s(type_name(s_code))),
+                            ("types_in_sequence", J::Arr(codes.iter().map(|&t| J::s(type_name(t))).collect())),
+                            ("route", J::s(route)),
+                            ("got", out_json(&got)),
+                            ("want", out_json(&want)),
+                            ("shp_hex", J::bytes_hex(&shp)),
+                        ]),
+                    );
+                }
+            }
+        }
+    }
+    if ctx.only.is_none() {
+        let v = rep.counters.get("mixed_sequences_with_two_or_more_foreign_types").copied().unwrap_or(0);
+        rep.guard("mixed sequences with >= 2 foreign types", v, if cfg!(miri) { 1 } else { 100 });
     }
     rep.sample(|| {
         J::obj(vec![
